@@ -6,7 +6,7 @@ From Coq Require Import ZArith NArith List Bool.
 From Centro Require Import Base.Topo Base.Skel Base.TopoPar Base.TopoSweep Base.TopoGrid Gen.TablesC05.
 From Centro Require Import Model.ThinSkel Spec.TopoCheck Proofs.ThinSkelTopo Proofs.ThinSkelIdem Proofs.TopoCounts
   Proofs.TopoSwShrinkEnd Proofs.ShrinkPoint Proofs.LabelsIndep Proofs.TopoCheckComplete
-  Proofs.EndPixelParity Proofs.EndPixelSep Proofs.EndPixel Proofs.ShrinkPointFull.
+  Proofs.EndPixelParity Proofs.EndPixelSep Proofs.EndPixel Proofs.ShrinkPointFull Proofs.TopoCheckPoints.
 Open Scope Z_scope.
 
 (* skeletonize_loop with the current removal table: every image size, every image, every
@@ -155,3 +155,34 @@ Theorem C05_topo_check_complete_partial : RonseLemma ->
   forall H W g g', wf H W g -> wf H W g' -> TopoEq (img_of g) (img_of g') -> topo_check H W g g' = true.
 Proof. exact topo_check_complete_partial. Qed.
 Print Assumptions C05_topo_check_complete_partial.
+
+(* Round 4.  The deletability (Ronse) lemma is PROVED for the targets binary_shrink produces: X' hole-free
+   with single-pixel components (then X is hole-free too).  The deletable pixel is an end pixel of X
+   other than the X'-pixel of its component (C05_end_pixel_fin with that pixel excluded). *)
+Theorem C05_ronse_points : forall H W g g', wf H W g -> wf H W g' ->
+  hole_free (img_of g') -> singletons (img_of g') -> TopoEq (img_of g) (img_of g') ->
+  (exists p, img_of g p = true /\ img_of g' p = false) ->
+  exists p, img_of g p = true /\ img_of g' p = false /\ simple_ok (pat (img_of g) p) = true.
+Proof. exact ronse_points. Qed.
+Print Assumptions C05_ronse_points.
+
+(* Full for this class: the checker accepts every topology-preserving pair whose target is hole-free
+   with single-pixel components (no hypothesis left) *)
+Theorem C05_topo_check_complete_points : forall H W g g', wf H W g -> wf H W g' ->
+  hole_free (img_of g') -> singletons (img_of g') -> TopoEq (img_of g) (img_of g') ->
+  topo_check H W g g' = true.
+Proof. exact topo_check_complete_points. Qed.
+Print Assumptions C05_topo_check_complete_points.
+
+(* binary_shrink(-1) on ANY hole-free image (any number of objects): every object ends as one pixel *)
+Theorem C05_shrink_result_singletons : forall H W g, wf H W g -> hole_free (img_of g) ->
+  singletons (img_of (shrink_model H W (-1) g)).
+Proof. exact shrink_result_singletons. Qed.
+Print Assumptions C05_shrink_result_singletons.
+
+(* completeness of the checker on the model's own output: no false alarm is possible on
+   binary_shrink(-1) of a hole-free image *)
+Theorem C05_topo_check_accepts_shrink : forall H W g, wf H W g -> hole_free (img_of g) ->
+  topo_check H W g (shrink_model H W (-1) g) = true.
+Proof. exact topo_check_accepts_shrink. Qed.
+Print Assumptions C05_topo_check_accepts_shrink.
